@@ -25,7 +25,8 @@ def Quirks.current : Quirks :=
     rawLookupSeesExpired := false,  -- D22
     flushDetaches := false,         -- D42
     lcsRunes := false,              -- D68
-    sintercardLimitGreedy := true } -- D88
+    sintercardLimitGreedy := true,  -- D88
+    multiBindsAtQueue := true }      -- D25
 
 def words (s : String) : List String := (s.splitOn " ").filter (· ≠ "")
 
@@ -346,7 +347,8 @@ def allQuirkOff (q : Quirks) : List (String × Quirks) :=
    ("D37", { q with bitcountEmptyCrash := false }), ("D45", { q with bfSignedOverflow64 := false }),
    ("D46", { q with bfSetOverflowUsesSum := false }), ("D63", { q with unlinkKeepsObject := false }),
    ("D60", { q with getexNoOptPersists := false }), ("D62", { q with bitposPartialEnd := false }),
-   ("D61", { q with bitopEmptyCreates := false }), ("D68", { q with lcsRunes := false }), ("D88", { q with sintercardLimitGreedy := false })]
+   ("D61", { q with bitopEmptyCreates := false }), ("D68", { q with lcsRunes := false }), ("D88", { q with sintercardLimitGreedy := false }),
+   ("D25", { q with multiBindsAtQueue := false })]
 
 /-- observable part of an outcome, for "did this quirk matter on this step" -/
 def outKey (o : Out) : String :=
